@@ -61,8 +61,9 @@ pub static C09: CheckSpec = CheckSpec {
     id: "C09",
     level: "exploration",
     scenarios: &[
-        Scenario { name: "query-direct", weight: 2, run: worlds::query::run_direct },
-        Scenario { name: "query-pool", weight: 1, run: worlds::query::run_pool },
+        Scenario { name: "query-direct", weight: 8, run: worlds::query::run_direct },
+        Scenario { name: "query-pool", weight: 4, run: worlds::query::run_pool },
+        Scenario { name: "service-lookup", weight: 1, run: worlds::s_nodes::run_lookup },
     ],
     runs_quick: 600_000,
     runs_thorough: 60_000_000,
@@ -78,8 +79,9 @@ pub static C10: CheckSpec = CheckSpec {
     id: "C10",
     level: "exploration",
     scenarios: &[
-        Scenario { name: "query-direct", weight: 2, run: worlds::query::run_direct },
-        Scenario { name: "query-pool", weight: 1, run: worlds::query::run_pool },
+        Scenario { name: "query-direct", weight: 8, run: worlds::query::run_direct },
+        Scenario { name: "query-pool", weight: 4, run: worlds::query::run_pool },
+        Scenario { name: "service-lookup", weight: 1, run: worlds::s_nodes::run_lookup },
     ],
     runs_quick: 600_000,
     runs_thorough: 60_000_000,
@@ -166,6 +168,23 @@ pub static C19: CheckSpec = CheckSpec {
     assumptions: &["the session-key log (hook H6) reports every session object the handler creates"],
 };
 
+const REAL_SERVICE: &[&str] = &["Discv5 public API", "service::Service (request/response handling, NODES validation, routing-table admission, PING/FINDNODE/TALK serving, IP votes, connectivity state)", "kbucket::KBucketsTable", "query_pool::QueryPool + query state machines", "service::ip_vote::IpVote", "PERMIT_BAN_LIST"];
+const STUB_SERVICE: &[&str] = &["the Handler (scripted by the harness through hook H5: it receives HandlerIn and emits HandlerOut, giving every request exactly one outcome)", "sockets, sessions, encryption (below the handler seam)", "OS clock and entropy (interposed)"];
+
+pub static C11: CheckSpec = CheckSpec {
+    id: "C11",
+    level: "exploration",
+    scenarios: &[Scenario { name: "nodes-validation", weight: 1, run: worlds::s_nodes::run_c11 }],
+    runs_quick: 30_000,
+    runs_thorough: 1_500_000,
+    cap_quick_s: 75,
+    cap_thorough_s: 1200,
+    rule: "one run = a real service with 1-10 table peers out of a universe of 10-40 real signed records, one lookup whose target is random, a peer's id, a peer's id with one of the three lowest bits flipped (request lists containing 0) or the local id; each FINDNODE the lookup emits is answered by an honest responder (all records of its neighbourhood at the requested distances, own record iff 0 requested, 1-4 packets, consistent total, sometimes a late extra packet) or a malicious one (off-distance records, the requester's own record, duplicates, totals 0..2^64-1 with up to 20 packets, more packets than announced, a single foreign record) or by RequestFailed; accepted records are observed as Discovered events packet by packet, the ban list is read after every response; non-trivial = the lookup asked at least one peer; distinct = distinct event-log hash",
+    components_real: REAL_SERVICE,
+    components_stub: STUB_SERVICE,
+    assumptions: &["'accepted' = reported as Event::Discovered (the records handed to the query and the routing-table update); the local node's own record is never reported and is excluded", "the scripted handler delivers at most `total` (of the first packet) responses per request, like the real handler", "completeness is only demanded of honest, complete answers of at most 16 records"],
+};
+
 pub static C13: CheckSpec = CheckSpec {
     id: "C13",
     level: "exploration",
@@ -228,7 +247,7 @@ pub static C03: CheckSpec = CheckSpec {
     assumptions: &["a challenge's expiry is request_timeout after the WHOAREYOU or after the last delivered handshake that may have re-armed it (invalid-signature re-insert)", "the oracle trusts the crate's id-signature verification to attribute an accepted handshake to the challenge it answers"],
 };
 
-pub static ALL: &[&CheckSpec] = &[&C01, &C02, &C03, &C04, &C07, &C08, &C09, &C10, &C13, &C15, &C16, &C18, &C19];
+pub static ALL: &[&CheckSpec] = &[&C01, &C02, &C03, &C04, &C07, &C08, &C09, &C10, &C11, &C13, &C15, &C16, &C18, &C19];
 
 pub fn lookup(id: &str) -> Option<&'static CheckSpec> {
     ALL.iter().copied().find(|c| c.id.eq_ignore_ascii_case(id))
